@@ -1005,7 +1005,8 @@ func (t *Topic) saveAndBroadcastMessage(msg *ClientComMessage, asUid types.Uid, 
 	t.lastID++
 	t.touched = msg.Timestamp
 
-	if userFound {
+	if userFound && markedReadBySender {
+		// Keep the cached marks in step with what was actually stored.
 		pud.readID = t.lastID
 		pud.recvID = t.lastID
 		t.perUser[asUid] = pud
